@@ -18,7 +18,8 @@ type Conv struct {
 	Name        string   `json:"name"`
 	Lines       []string `json:"lines"`        // converter-level goverter: lines
 	MethodLines []string `json:"method_lines"` // lines on the single method / variable
-	In, Out     string   `json:"in,omitempty"`
+	In          string   `json:"in,omitempty"`
+	Out         string   `json:"out,omitempty"`
 	// RawBody, when set, replaces the interface body / the var specs (it must include the doc lines it wants).
 	RawBody string `json:"raw_body,omitempty"`
 	Fault   string `json:"fault"` // "", directive, methoddirective, signature, conversion, marker, compile
